@@ -617,8 +617,6 @@ def parse_beacon_gate(data: bytes) -> BeaconGateOptions:
 
 def beacon_gate_options_string(bgo: BeaconGateOptions) -> list[str]:
     """Return the enabled BeaconGate WinAPI's as a list of strings"""
-    options = {k for k, v in bgo._values.items() if v}
-
     comms = {"InternetOpenA", "InternetConnectA"}
     core = {
         "VirtualAlloc",
@@ -643,6 +641,8 @@ def beacon_gate_options_string(bgo: BeaconGateOptions) -> list[str]:
         "WriteProcessMemory",
     }
     cleanup = {"ExitThread"}
+
+    options = {name for name in comms | core | cleanup if getattr(bgo, name)}
 
     ret = []
     if options.issuperset(comms | core | cleanup):
